@@ -83,6 +83,8 @@ static void Fail(const std::string & rule, const std::string & what)
    if (key.empty()) { std::string o = opname; for (size_t i = 0; i < o.size(); i++) if (isdigit((unsigned char)o[i]) || o[i] == ' ') { o.resize(i); break; } key = modeName + "|" + o; }
    vh::viol(key, d);
 }
+// a defect of the library that is reported under its own key WITHOUT ending the case, so that everything else is still judged
+static void Finding(const std::string & key, const std::string & what) { static std::map<std::string, long> n; if (n[key]++ < 3) vh::viol(key, what + " | during: " + opname + " | types=" + typeName); vh::stat("finding_occurrences"); }
 #define OP(...) do { opname = vh::fmt(__VA_ARGS__); Trace(opname); vh::stat(std::string("op_") + std::string(opname, 0, opname.find(' '))); } while (0)
 
 // ---- the ordered-map model: list = iteration order, hash index, vector of present keys for random choice
@@ -391,7 +393,7 @@ template<class K, class V> struct Case : public Look {
          std::vector<std::pair<uint32, uint32> > sa = am, sb = cm; std::sort(sa.begin(), sa.end()); std::sort(sb.begin(), sb.end()); bool want = (sa == sb), wantO = (am == cm);
          if (T.WouldBeEqualToAfterPut(c, KK(k), VV(v)) != want) Fail(how == 1 && !hk ? "surface|WouldBeEqualToAfterPut-ignores-new-value(F30)" : "", vh::fmt("WouldBeEqualToAfterPut=%d, model %d (variant %d, key present: %d)", (int)!want, (int)want, how, (int)hk));
          bool gotO = T.WouldBeEqualToAfterPut(c, KK(k), VV(v), true);
-         if (gotO != wantO) { if (gotO && !hk && want) Fail("finding|WouldBeEqualToAfterPut-ordered-new-key-not-last-in-rhs", vh::fmt("WouldBeEqualToAfterPut(rhs,%u,%u,considerOrdering=true) is true, but Put() would append key %u at the end while rhs holds it at position %d of %zu", k, v, k, (int)(std::find(cm.begin(), cm.end(), std::make_pair(k, v)) - cm.begin()), cm.size())); else Fail("", vh::fmt("WouldBeEqualToAfterPut(ordered)=%d, model %d (variant %d)", (int)gotO, (int)wantO, how)); } } break;
+         if (gotO != wantO) { if (gotO && !hk && want) Finding("finding|WouldBeEqualToAfterPut-ordered-new-key-not-last-in-rhs", vh::fmt("WouldBeEqualToAfterPut(rhs,%u,%u,considerOrdering=true) is true, but Put() would append key %u at the end while rhs holds it at position %d of %zu", k, v, k, (int)(std::find(cm.begin(), cm.end(), std::make_pair(k, v)) - cm.begin()), cm.size())); else Fail("", vh::fmt("WouldBeEqualToAfterPut(ordered)=%d, model %d (variant %d)", (int)gotO, (int)wantO, how)); } } break;
       case O_WBEREMOVE: { if (big) break; if (!hk && sz && R(2)) k = kOld(a); OP("WouldBeEqualToAfterRemove t%d %u", a, k); HT c(T); std::vector<std::pair<uint32, uint32> > cm = M.pairs(), am = M.pairs(); int how = R(4);
          for (size_t i = 0; i < am.size(); i++) if (am[i].first == k) { am.erase(am.begin() + i); break; }
          uint32 rk = (how == 0) ? k : (how == 1 && sz) ? kOld(a) : 0; if (rk) { (void)c.Remove(KK(rk)); for (size_t i = 0; i < cm.size(); i++) if (cm[i].first == rk) { cm.erase(cm.begin() + i); break; } }
@@ -517,7 +519,7 @@ template<class TT, class K, class V, bool byValue> struct OrdCase : public Look 
    ~OrdCase() { ts.DeleteIterators(); delete t; }
    virtual bool Find(int, uint32 kid, uint32 & v, uint64_t & id) { typename std::map<uint32, MV>::iterator f = om.find(kid); if (f == om.end()) return false; v = f->second.v; id = f->second.id; return true; }
    static K KK(uint32 k) { return KT<K>::Make(k); } static V VV(uint32 v) { return VT<V>::Make(v); }
-   void mPut(uint32 k, uint32 v) { typename std::map<uint32, MV>::iterator f = om.find(k); ts.NoteMutation(0); if (f == om.end()) { MV m; m.v = v; m.id = ++g_nextId; om[k] = m; } else { if (byValue && f->second.v != v) ts.NoteReorder(0); f->second.v = v; } }
+   void mPut(uint32 k, uint32 v) { typename std::map<uint32, MV>::iterator f = om.find(k); ts.NoteMutation(0); if (f == om.end()) { MV m; m.v = v; m.id = ++g_nextId; om[k] = m; } else { if (!sortedExpected || (byValue && f->second.v != v)) ts.NoteReorder(0); /* an update repositions the entry: always in a by-value table, and relative to whatever neighbours it has in an unsorted one */ f->second.v = v; } }
    void mErase(uint32 k) { typename std::map<uint32, MV>::iterator f = om.find(k); if (f == om.end()) return; uint64_t id = f->second.id; om.erase(f); ts.NoteRemoved(0, id); }
    void mClear(bool detach) { for (typename std::map<uint32, MV>::iterator i = om.begin(); i != om.end(); ++i) ts.NoteRemoved(0, i->second.id); om.clear(); if (detach) ts.NoteDetach(0); }
    void Observe(const TT & h, bool deep, bool track = true)
@@ -555,7 +557,7 @@ template<class TT, class K, class V, bool byValue> struct OrdCase : public Look 
          else if (o < 50) { OP("Remove %u", k); r = t->Remove(KK(k)); if (r.IsOK() != hk) Fail("", "status"); mErase(k); }
          else if (o < 55) { bool first = R(2); OP(first ? "RemoveFirst" : "RemoveLast"); K ok = KK(0); r = first ? t->RemoveFirst(ok) : t->RemoveLast(ok); if (r.IsOK() != (om.size() > 0)) Fail("", "status"); if (om.size()) { uint32 want = first ? seq.front().second : seq.back().second; if (KT<K>::Id(ok) != want) Fail("", vh::fmt("removed key %u, the %s key was %u", KT<K>::Id(ok), first ? "first" : "last", want)); mErase(want); } }
          else if (o < 61) { OP("modify+Reposition %u=%u", k, v); V * pv = t->Get(KK(k)); if ((pv != NULL) != hk) Fail("", "Get"); if (pv) { if (byValue && om[k].v != v) ts.NoteReorder(0); *pv = VV(v); om[k].v = v; ts.NoteMutation(0); } r = t->Reposition(KK(k)); if (r.IsOK() != hk) Fail("", "Reposition status"); }
-         else if (o < 64) { OP("copy/assign/swap"); TT c(*t); if (!(c == *t) || !c.IsEqualTo(*t, true)) Fail("", "copy differs (ordered comparison)"); TT d; (void)d.Put(KK(1 + R(ks)), VV(R(vr))); d = *t; if (!d.IsEqualTo(*t, false)) Fail("", "assigned copy differs"); { bool se = sortedExpected; if (om.size()) sortedExpected = true; /* CopyFrom sorts */ Observe(c, true, false); Observe(d, true, false); sortedExpected = se; }
+         else if (o < 64) { OP("copy/assign/swap"); TT c(*t); if (!(c == *t) || (c != *t)) Fail("", "copy differs"); TT d; (void)d.Put(KK(1 + R(ks)), VV(R(vr))); d = *t; if (!d.IsEqualTo(*t, false)) Fail("", "assigned copy differs"); { bool se = sortedExpected; if (om.size()) sortedExpected = true; /* CopyFrom sorts */ Observe(c, true, false); Observe(d, true, false); sortedExpected = se; }
             TT tmp; tmp.SwapContents(*t); if (t->GetNumItems() != 0) Fail("", "swapped-out table not empty"); ts.Touch(); t->SwapContents(tmp); uint32 nk = 1 + R(ks); (void)c.Put(KK(nk), VV(R(vr))); bool se2 = sortedExpected; if (se2) { uint32 prev = 0, n = 0; for (CIT it(c, HTIT_FLAG_NOREGISTER); it.HasData(); it++, n++) { uint32 sk = byValue ? VT<V>::Val(it.GetValue()) : KT<K>::Id(it.GetKey()); if (n && sk < prev) { Fail("ordered|not-sorted", "a Put into a copy of a sorted table is misplaced"); break; } prev = sk; } } }
          else if (o < 67) { OP("autosort off / bulk put / on"); t->SetAutoSortEnabled(false, R(2)); if (t->GetAutoSortEnabled()) Fail("", "GetAutoSortEnabled"); autoOn = false; uint32 n = 1 + R(5); for (uint32 i = 0; i < n; i++) { uint32 kk = 1 + R(ks), vv = R(vr); if (!om.count(kk)) sortedExpected = false; if (t->Put(KK(kk), VV(vv)).IsError()) Fail("", "Put failed"); if (byValue && om.count(kk) && om[kk].v != vv) sortedExpected = false; mPut(kk, vv); }
             if (R(4)) { bool now = R(4) != 0; t->SetAutoSortEnabled(true, now); autoOn = true; if (now) { sortedExpected = true; ts.NoteReorder(0); } } }
